@@ -579,6 +579,30 @@ Theorem C05_concurrent_file_explored :
 Proof. exact explore_f_reachable. Qed.
 Print Assumptions C05_concurrent_file_explored.
 
+(* the memory and file-store transition systems for EVERY reader script (io.EOF not final):
+   what a successful concurrent push stores / makes visible is exactly what its reader
+   delivered before its first EOF -- no premise on the script *)
+Theorem C05_concurrent_memory_upto_eof :
+  forall (H : str -> str -> str) m ts sched st,
+    mem_reach H m -> Forall (fun t => m_pc t = MStart /\ m_lim t = None) ts ->
+    mrun H (mkM m ts) sched = Some st ->
+    forall i t buf, nth_error (ms_thr st) i = Some t -> m_pc t = MRead None buf -> buf = upto_eof (m_evs t).
+Proof. exact memory_concurrent_upto. Qed.
+Print Assumptions C05_concurrent_memory_upto_eof.
+
+Theorem C05_concurrent_file_upto_eof :
+  forall (H : str -> str -> str) (U : list str),
+    (forall a c, In a U -> In c U -> resolve_name a = resolve_name c -> a = c) ->
+    forall s ts sched st,
+    file_reach_names H s -> (forall n, name_in n (f_names s) = true -> In n U) ->
+    Forall (fun t => ft_pc t = FStart /\ In (ft_name t) U) ts ->
+    frun H (mkFC s ts) sched = Some st ->
+    forall i st' t out path, fstep H st i = Some st' -> nth_error (fc_thr st) i = Some t ->
+      ft_pc t = FWrite None out path ->
+      file_fetch (fc_st st') (ft_name t) (ft_d t) = Some (upto_eof (ft_evs t)).
+Proof. exact file_concurrent_upto. Qed.
+Print Assumptions C05_concurrent_file_upto_eof.
+
 (* the outcome set the implementation's concurrent runs are compared with (exhaustive
    interleaving of the micro-steps, [explore]) consists of runs of the transition
    system only, so the invariant above holds for each of those outcomes *)
